@@ -207,9 +207,9 @@ func handlerAssumptions(p *Prog, fn *ssa.Function, hi handlerInfo, accept string
 
 // c05Reviewed: obligations accepted by review, one named construct each, with the reason.
 var c05Reviewed = map[string]string{
-	"(*keyper/epochkg.EpochKG).HandleEpochSecretKeyShare|index|epochkg.PublicKeyShares[share.Sender]":                "Sender comes from rows of decryption_key_share, which are inserted only from validated messages (C04-R-store: checkKeyShares proves KeyperIndex < len(PublicKeyShares) for the same keyper-config index) or from the keyper's own index; declared data invariant of the share table",
-	"(medley/identitypreimage.IdentityPreimage).String|slice|(medley/identitypreimage.IdentityPreimage).Hex(e)[2::]": "hexutil.Encode always returns a string starting with \"0x\" (length >= 2); trusted-base contract of go-ethereum",
-	"(*keyperimpl/gnosis.MessagingMiddleware).advanceTxPointer|assert|msg.Extra.(*p2pmsg.DecryptionKeys_Gnosis)":     "locally produced message: called with the middleware's own output (Extra set two statements earlier) or with a handler output whose Extra is non-nil; every store to DecryptionKeys.Extra in package keyperimpl/gnosis stores *DecryptionKeys_Gnosis (checked by rule C05-OWN below)",
+	"(*keyper/epochkg.EpochKG).HandleEpochSecretKeyShare|index|$0.PublicKeyShares[$1.Sender]":                         "Sender comes from rows of decryption_key_share, which are inserted only from validated messages (C04-R-store: checkKeyShares proves KeyperIndex < len(PublicKeyShares) for the same keyper-config index) or from the keyper's own index; declared data invariant of the share table",
+	"(medley/identitypreimage.IdentityPreimage).String|slice|(medley/identitypreimage.IdentityPreimage).Hex($0)[2::]": "hexutil.Encode always returns a string starting with \"0x\" (length >= 2); trusted-base contract of go-ethereum",
+	"(*keyperimpl/gnosis.MessagingMiddleware).advanceTxPointer|assert|$2.Extra.(*p2pmsg.DecryptionKeys_Gnosis)":       "locally produced message: called with the middleware's own output (Extra set two statements earlier) or with a handler output whose Extra is non-nil; every store to DecryptionKeys.Extra in package keyperimpl/gnosis stores *DecryptionKeys_Gnosis (checked by rule C05-OWN below)",
 }
 
 var _ = fmt.Sprintf
